@@ -1778,9 +1778,10 @@ func (schema *Schema) visitJSONString(settings *schemaValidationSettings, value 
 					return err
 				}
 				me = append(me, err)
+				cp = nil // compilePattern returns a typed nil matcher on error
 			}
 		}
-		if !cp.MatchString(value) {
+		if cp != nil && !cp.MatchString(value) {
 			err := &SchemaError{
 				Value:                 value,
 				Schema:                schema,
